@@ -3,7 +3,7 @@
    Reference semantics (a definition, validated against CPython by harness/c02_perf.py) of a fragment with
    integers, lists with identity (a store), immutable tuples, one-shot iterators (position in the store),
    opaque producers (generator functions g<k>() whose elements come from a world W and whose every step is an
-   event), and the models of the rules as the code is (after the repairs 5ea8100 32fac44 2835a2e 116947d 1454583).
+   event), and the models of the rules as the code is (after the repairs 5ea8100 32fac44 2835a2e 608b244 cf0e3b9).
    No proofs in this file. *)
 From Coq Require Import List ZArith Bool Lia.
 From Pyrefact Require Import Base.
@@ -548,7 +548,7 @@ Definition map_stmt (st : stmt) : stmt :=
 End Map.
 
 (* ---------------------------------------------------------------- remove_redundant_iter *)
-(* [any]: the rule before 32fac44 (every argument); [mut]: the rule before 116947d (names of mutable collections) *)
+(* [any]: the rule before 32fac44 (every argument); [mut]: the rule before 608b244 (names of mutable collections) *)
 Fixpoint strip_with (any mut : bool) (p : prog) (e : expr) : expr :=
   match e with
   | ECall FIter a => if rebound p N_ITER then e else strip_with any mut p a
@@ -582,7 +582,7 @@ Definition rri_before_116947d := rri_with false true.
 Definition rri_before_32fac44 := rri_with true true.
 
 (* ---------------------------------------------------------------- optimize_contains_types *)
-(* [sets]: displays become set displays; [any]: the rule before 2835a2e / 1454583 (every argument) *)
+(* [sets]: displays become set displays; [any]: the rule before 2835a2e / cf0e3b9 (every argument) *)
 Fixpoint oct_rhs (sets any : bool) (p : prog) (a : atom) (c : expr) : expr :=
   match c with
   | ECall f c1 => if negb (rebound p (fn_name f)) && (any || is_coll true p c1) then oct_rhs sets any p a c1 else EIn a c
